@@ -387,3 +387,9 @@ UNDECIDED = [
     ('u7-reg-while-fill', ['C01', 'C06'], [(A, AFTER_REGISTERS, "\n_n = 0\nwhile _n < 32:\n    REGISTERS['x%d' % _n] = _n\n    _n += 1\n" + AFTER_REGISTERS)]),
 ]
 UNDECIDED += UNDECIDED_LATE
+
+
+# the encoder looked up with a key bound by a walrus: followed since the walker reads `(x := e)` (was: no verdict, 'u7-pack-walrus-key')
+PRESERVING += [
+    ('p7-pack-walrus-key', ['C01'], [(A, "        encode_func = INSTRUCTIONS[item.name]\n", "        encode_func = INSTRUCTIONS[(mnemonic := item.name)]\n")]),
+]
